@@ -1655,3 +1655,57 @@ Lemma renamed_example :
   cmd lib_model_ok (lib_model_ok_v V31) V31 renamed_u = Failed /\
   match emit V30 renamed_u with Some d => wf d | None => false end = true.
 Proof. vm_compute. repeat split. Qed.
+
+(* ------------------------------------------------------------------ *)
+(* context parameters: erased wherever they stand, the annotated parameters keep their order *)
+
+Lemma spec_params_app l1 l2 : spec_params (l1 ++ l2) = spec_params l1 ++ spec_params l2.
+Proof. unfold spec_params. apply flat_map_app. Qed.
+
+Lemma spec_params_ctx_anywhere l1 n l2 : spec_params (l1 ++ SCtx n :: l2) = spec_params (l1 ++ l2).
+Proof. rewrite !spec_params_app. reflexivity. Qed.
+
+Lemma spec_params_ann l : spec_params (map SAnn l) = l.
+Proof. induction l as [|p l IH]; [reflexivity|]. cbn. unfold spec_params in IH. rewrite IH. reflexivity. Qed.
+
+(* the operation of a method does not depend on where (or whether) a context parameter is declared *)
+Lemma ctx_position_irrelevant cfg c name verb path hidden ret err errors secu l1 n l2 :
+  mk_dop cfg c (mkRoute name verb path hidden (spec_params (l1 ++ SCtx n :: l2)) ret err errors secu) =
+  mk_dop cfg c (mkRoute name verb path hidden (spec_params (l1 ++ l2)) ret err errors secu).
+Proof. rewrite spec_params_ctx_anywhere. reflexivity. Qed.
+
+(* GetItem(ctx context.Context, id string, verbose bool): the context parameter comes first, the
+   operation has exactly the two annotated parameters, once each *)
+Definition ctx_first_u : universe :=
+  mkUniverse demo_cfg []
+    [mkCtrl (s "Ctl") [] []
+       [mkRoute (s "GetItem") (s "GET") (s "/items/{id}") false
+                (spec_params [SCtx (s "ctx"); SAnn (mkRParam (s "id") LPath None Tstr None);
+                              SAnn (mkRParam (s "verbose") LQuery None (TPrim (s "bool")) None)])
+                (Some Tstr) None [] []]].
+
+Lemma ctx_first_example :
+  match cmd lib_model_ok (lib_model_ok_v V31) V31 ctx_first_u with
+  | Wrote d => map (fun o => map (fun p => (op_in p, op_name p)) (dop_params o)) (doc_ops d) =
+                 [[(s "path", s "id"); (s "query", s "verbose")]] /\ wf d = true
+  | Failed => False
+  end.
+Proof. vm_compute. split; reflexivity. Qed.
+
+(* a declared type whose name is not an OpenAPI identifier (type Größe struct, G r 0xC3 0xB6 0xC3 0x9F e):
+   the modelled kin-openapi rule refuses the 3.0 document, so nothing is written in either dialect *)
+Definition non_ascii_name : str := bs [71; 114; 195; 182; 195; 159; 101]%N.
+
+Definition non_ascii_u : universe :=
+  mkUniverse demo_cfg
+    [mkDecl (s "types") non_ascii_name (DStruct [mkField (s "N") false (Some (s "n")) [] (TPrim (s "int"))])]
+    [mkCtrl (s "Ctl") [] []
+       [mkRoute (s "List") (s "GET") (s "/sizes") false [] (Some (TSlice (TNamed (s "types") non_ascii_name)))
+                None [] []]].
+
+Lemma non_ascii_example :
+  valid_ident non_ascii_name = false /\ valid_ident (s "Gr__e") = true /\
+  cmd lib_model_ok (lib_model_ok_v V31) V30 non_ascii_u = Failed /\
+  cmd lib_model_ok (lib_model_ok_v V31) V31 non_ascii_u = Failed /\
+  match emit V30 non_ascii_u with Some d => wf d | None => false end = true.
+Proof. vm_compute. repeat split. Qed.
